@@ -15,37 +15,37 @@ func Clone(g Geometry) Geometry {
 		return g
 	case MultiPoint:
 		if g == nil {
-			return nil
+			return g
 		}
 		return g.Clone()
 	case LineString:
 		if g == nil {
-			return nil
+			return g
 		}
 		return g.Clone()
 	case MultiLineString:
 		if g == nil {
-			return nil
+			return g
 		}
 		return g.Clone()
 	case Ring:
 		if g == nil {
-			return nil
+			return g
 		}
 		return g.Clone()
 	case Polygon:
 		if g == nil {
-			return nil
+			return g
 		}
 		return g.Clone()
 	case MultiPolygon:
 		if g == nil {
-			return nil
+			return g
 		}
 		return g.Clone()
 	case Collection:
 		if g == nil {
-			return nil
+			return g
 		}
 		return g.Clone()
 	case Bound:
